@@ -118,8 +118,14 @@ func (s *Storer) newRunId(id string) error {
 	rdbAof := s.initDataSet()
 	if rdbAof != nil {
 		s.dataSetMux.Lock()
+		replaced := s.dataSet
 		s.dataSet = rdbAof
 		s.dataSetMux.Unlock()
+		if replaced != nil {
+			// the readers and writers of the replaced index are not in the new one : they are
+			// invalidated, nothing would close them or count them as references any more
+			replaced.Close()
+		}
 	}
 
 	return nil
